@@ -391,6 +391,7 @@ func execC17History(p *drv.Plan) *Out {
 		preM, preT := committedOnly(w.M, w.T)
 		w.Sim.ClearFired()
 		w.Sim.Arm(armed)
+		logBefore := w.Sim.LogLen()
 		v := w.Apply(s)
 		fired := w.Sim.Fired()
 		w.Sim.Disarm()
@@ -435,6 +436,12 @@ func execC17History(p *drv.Plan) *Out {
 			break
 		}
 		// the operation reported the failure: discard the handle, reopen, old or new
+		flushState := "no-flush"
+		for _, rec := range w.Sim.Log(logBefore, w.Sim.LogLen()) {
+			if len(rec.Ops) > 0 {
+				flushState = "partial-flush"
+			}
+		}
 		disk := w.Sim
 		w.Cleanup()
 		w2 := drv.NewWorld(p.Config)
@@ -445,7 +452,9 @@ func execC17History(p *drv.Plan) *Out {
 		}
 		w2.M, w2.T = preM.Clone(), preT.Clone()
 		if err := w2.Open(); err != nil {
-			out.Violations = append(out.Violations, mk(s, "C17.reopen-old-or-new", "load-fails", site, fmt.Sprintf("reopening after the failed step: %v", err)))
+			lv := mk(s, "C17.reopen-old-or-new", "load-fails", site, fmt.Sprintf("reopening after the failed step: %v", err))
+			lv.Class = s.Op + "/" + flushState + "/" + fired[0].Fault.Kind
+			out.Violations = append(out.Violations, lv)
 			w = w2
 			break
 		}
@@ -459,7 +468,7 @@ func execC17History(p *drv.Plan) *Out {
 					cls = "prune"
 				}
 				vv := mk(s, "C17.reopen-old-or-new", "bad-state-after-reopen", site, fmt.Sprintf("neither the state before (%s) nor after (%s)", firstLine(vOld.Detail), firstLine(vNew.Detail)))
-				vv.Class = cls + "/" + fired[0].Fault.Kind
+				vv.Class = cls + "/" + flushState + "/" + fired[0].Fault.Kind
 				out.Violations = append(out.Violations, vv)
 				w = w2
 				break
@@ -692,6 +701,7 @@ func oneFault(p *drv.Plan, w *drv.World, base *sim.SimDB, baseDigest uint64, for
 	w2.Sim.BeginStep(s.ID)
 	w2.Sim.ClearFired()
 	w2.Sim.Arm(faults)
+	logBefore := w2.Sim.LogLen()
 	api := strings.TrimPrefix(s.Op, "p.")
 	mk := func(oracle, symptom, site, detail string) *drv.Violation {
 		return &drv.Violation{Prop: "C17", Oracle: oracle, Symptom: symptom, Class: api + "/" + pos[0].kind, Site: site, StepID: s.ID,
@@ -765,6 +775,20 @@ func oneFault(p *drv.Plan, w *drv.World, base *sim.SimDB, baseDigest uint64, for
 	if s.Op == "p.set" || s.Op == "p.remove" {
 		return nil // nothing durable can have changed; the handle is discarded
 	}
+	// whether part of the operation had already reached the disk when it failed
+	// is part of the signature: the listed findings are about partly flushed
+	// deletions, a bad state without any flush would be something else
+	flushState := "no-flush"
+	for _, rec := range w2.Sim.Log(logBefore, w2.Sim.LogLen()) {
+		if len(rec.Ops) > 0 {
+			flushState = "partial-flush"
+		}
+	}
+	mkR := func(symptom, detail string) *drv.Violation {
+		v := mk("C17.reopen-old-or-new", symptom, site, detail)
+		v.Class = api + "/" + flushState + "/" + pos[0].kind
+		return v
+	}
 	disk := w2.Sim
 	w2.Cleanup()
 	w3 := drv.NewWorld(p.Config)
@@ -778,7 +802,7 @@ func oneFault(p *drv.Plan, w *drv.World, base *sim.SimDB, baseDigest uint64, for
 	defer w3.Cleanup()
 	if v := w3.Guard("C17", "C17.reopen-old-or-new", api, func() *drv.Violation {
 		if err := w3.Open(); err != nil {
-			return mk("C17.reopen-old-or-new", "load-fails", site, fmt.Sprintf("reopening after the failed operation: %v", err))
+			return mkR("load-fails", fmt.Sprintf("reopening after the failed operation: %v", err))
 		}
 		return nil
 	}); v != nil {
@@ -810,7 +834,7 @@ func oneFault(p *drv.Plan, w *drv.World, base *sim.SimDB, baseDigest uint64, for
 	if vNew == nil {
 		return nil
 	}
-	return mk("C17.reopen-old-or-new", "bad-state-after-reopen", site, fmt.Sprintf("after the failed operation the store reopens to neither the state before (%s) nor after (%s)", firstLine(vOld.Detail), firstLine(vNew.Detail)))
+	return mkR("bad-state-after-reopen", fmt.Sprintf("after the failed operation the store reopens to neither the state before (%s) nor after (%s)", firstLine(vOld.Detail), firstLine(vNew.Detail)))
 }
 
 // importUnderFaults exports a version from the base disk (fault-free) and
